@@ -113,6 +113,9 @@ def check(run):
     with R.as_rule('C05.inflated'):
         C06.wiring(R)
         C06.tail(R)
+    from . import C17 as _C17
+    with R.as_rule('C05.track'):
+        _C17.reset(R)            # the validator / text-tracking state of a connection does not outlive it (new State + stream)
     from .common import event_fields
     event_fields(R, 'C05.exact', ['Text', 'Closed', 'Closing'])     # the delivered string is the decoded string
     awaitables_fresh(R, 'C05.route')         # a read cut across two recv() calls does not change what the next read sees
